@@ -95,8 +95,37 @@ def s_forced(op):
     return ch.map(lambda a: [op, a])
 
 
+SFUN1 = ["exp", "log", "Abs", "sign", "floor", "ceiling", "asin", "acos", "sinh", "cosh", "tanh", "asinh", "erf"]
+SFUN2 = ["Max", "Min", "Mod", "atan2"]
+
+
+def s_forced_unsupported(name):
+    """A SymPy function outside the converter's list applied to simple supported arguments (symbol, symbol * constant,
+    symbol + constant): whatever the converter does with it - raise, or convert - must not change its value."""
+    leaf = st.one_of(
+        st.sampled_from(NAMES).map(lambda n: ["sym", n]),
+        st.tuples(st.sampled_from(NAMES), st.sampled_from([2, -3])).map(lambda t: ["mul", ["int", t[1]], ["sym", t[0]]]),
+        st.tuples(st.sampled_from(NAMES), st.sampled_from([0.25, -1.5, 3.0])).map(lambda t: ["add", ["sym", t[0]], ["float", t[1]]]),
+        st.sampled_from([3, -3, 2]).map(lambda v: ["int", v]),
+    )
+    if name in SFUN1:
+        core = leaf.map(lambda a: ["sfun", name, a])
+    elif name in SFUN2:
+        core = st.tuples(leaf, leaf).map(lambda t: ["sfun", name, t[0], t[1]])
+    elif name == "piecewise":
+        core = st.tuples(leaf, leaf, leaf).map(lambda t: ["piecewise", t[0], t[1], t[2]])
+    elif name == "pi":
+        core = leaf.map(lambda a: ["mul", ["pi"], a])
+    else:
+        raise ValueError(name)
+    wrap = st.one_of(core, st.tuples(core, leaf).map(lambda t: ["add", t[0], ["mul", ["rat", 1, 2], t[1]]]), core.map(lambda c: ["sin", c]))
+    return wrap
+
+
 def to_sympy(t, syms):
     k = t[0]
+    if k == "sfun":
+        return getattr(sympy, t[1])(*[to_sympy(c, syms) for c in t[2:]])
     if k == "sym":
         return syms.setdefault(t[1], sympy.Symbol(t[1]))
     if k == "int":
@@ -227,7 +256,11 @@ def well_conditioned(expr, point, val, binding=None):
 
 
 @st.composite
-def s2c_case(draw, unsupported=False, matrix=False, op=None):
+def s2c_case(draw, unsupported=False, matrix=False, op=None, unsupported_op=None):
+    if unsupported_op is not None:
+        tree = draw(s_forced_unsupported(unsupported_op))
+        return {"tree": tree, "cse": draw(st.booleans()), "point": {n: draw(st.sampled_from(VALS)) for n in NAMES},
+                "fdict_order": draw(st.permutations(["f1", "f2", "f3"]))}
     if op is not None:
         tree = draw(s_forced(op))
         if draw(st.booleans()):
@@ -506,6 +539,38 @@ def c_forced(op):
         return st.tuples(cmpb, ch, ch).map(lambda t: ["if_else", t[0], t[1], t[2]])
     if op == "if_else_zero":
         return st.tuples(cmpb, ch).map(lambda t: ["if_else_zero", t[0], t[1]])
+    if op == "guard":
+        # a selection guarding a singular branch: the expression is defined where the singular branch is not selected
+        u = st.one_of(st.sampled_from(NAMES[:4]).map(lambda n: ["sym", n]),
+                      st.tuples(st.sampled_from(NAMES[:4]), st.sampled_from([1.0, -2.0, 0.5])).map(lambda t: ["sub", ["sym", t[0]], ["const", t[1]]]))
+        lf = c_leaf()
+
+        def mk(t):
+            u_, kind, alt, rel, wrap = t
+            sing = {"sinc": ["div", ["sin", u_], u_], "xlogx": ["mul", u_, ["log", u_]], "inv": ["inv", u_], "div": ["div", alt, u_],
+                    "sqrt": ["sqrt", u_], "cosm": ["div", ["sub", ["const", 1.0], ["cos", u_]], ["sq", u_]]}[kind]
+            cond = [rel, u_, ["const", 0.0]]
+            body = ["if_else", cond, sing, alt] if wrap != 1 else ["if_else_zero", cond, sing]
+            if wrap == 2:
+                body = ["if_else", ["not", cond], alt, sing]
+            return body if wrap != 3 else ["add", body, alt]
+
+        return st.tuples(u, st.sampled_from(["sinc", "xlogx", "inv", "div", "sqrt", "cosm"]), lf, st.sampled_from(["ne", "gt", "ge", "lt"]),
+                         st.integers(0, 3)).map(mk)
+    if op == "near_consts":
+        # two sub-expressions that differ only in a constant beyond the 6th significant digit (what a printed form hides)
+        base = st.sampled_from([0.1234567, 1.0000001, 1000000.25, 0.3333333, 2.7182818, 41.9999999])
+        d = st.sampled_from([1e-7, 3e-8, -1e-7, 1e-6])
+        sy = st.sampled_from(NAMES[:4]).map(lambda n: ["sym", n])
+
+        def mk(t):
+            c1, dd, a, b, shape, comb = t
+            c2 = c1 * (1 + dd) if c1 < 1e5 else c1 + 0.5
+            f = {0: lambda c, v: ["mul", ["const", c], v], 1: lambda c, v: ["sin", ["mul", ["const", c], v]],
+                 2: lambda c, v: ["add", ["const", c], v], 3: lambda c, v: ["div", v, ["const", c]]}[shape]
+            return [comb, f(c1, a), f(c2, b)]
+
+        return st.tuples(base, d, sy, sy, st.integers(0, 3), st.sampled_from(["sub", "add", "mul", "fmax"])).map(mk)
     if op == "sel_sum":
         # a sum of two one-sided selections with unrelated conditions, the second one negated: the same node shape
         # CasADi uses internally for if_else(c, a, b) = if_else_zero(c, a) + if_else_zero(!c, b), but not that function
@@ -519,7 +584,7 @@ def c_forced(op):
     raise ValueError(op)
 
 
-C2S_OPS = NUM1 + NUM2 + ["cpow", "if_else", "if_else_zero", "lt", "le", "eq", "ne", "and", "or", "not", "sel_sum"]
+C2S_OPS = NUM1 + NUM2 + ["cpow", "if_else", "if_else_zero", "lt", "le", "eq", "ne", "and", "or", "not", "sel_sum", "guard", "near_consts"]
 
 
 def to_casadi(t, table, nodes=None, perts=None):
@@ -617,12 +682,17 @@ def check_c2s(case):
     F = ca.Function("F", [table[n] for n in names], [ca.densify(expr)])
     Fn = ca.Function("Fn", [table[n] for n in names], [ca.densify(ca.vertcat(*[ca.SX(n_) for n_ in nodes]))])
     allv = np.array(Fn.call([ca.DM(case["point"][n]) for n in names])[0], float)
-    require(bool(np.all(np.isfinite(allv))) and float(np.max(np.abs(allv))) < 1e12)  # point inside every sub-expression's domain
+    strict = bool(np.all(np.isfinite(allv))) and float(np.max(np.abs(allv))) < 1e12  # point inside every sub-expression's domain
+    if not strict:
+        # a selection may guard a singular branch (if_else(x != 0, sin(x)/x, 1) at x = 0): the point is in the domain of the
+        # expression when every sub-expression on the *selected* paths is finite
+        require(t[0] != "mat" and _selected_paths_finite(t, case["point"]))
+        allv = np.array([0.0])
     floor = 1e-13 * (1.0 + float(np.max(np.abs(allv))))  # round-off of the double evaluation, relative to the largest intermediate
     # first-order rounding-error analysis of the *source* double evaluation: every node carries a relative error d_i of one
     # ulp; sum_i |dy/dd_i| * 2^-52 bounds what CasADi's own arithmetic can be off by (tan next to pi/2, cancellations, ...)
     roundoff = None
-    if t[0] != "mat":
+    if t[0] != "mat" and strict:
         try:
             tb2, perts = dict(table), []
             yp = ca.SX(to_casadi(t, tb2, None, perts))
@@ -679,6 +749,10 @@ def check_c2s(case):
         else:
             vv = as_real(v)
             if vv is None:
+                if not strict and _is_nan(v):
+                    raise Violation("casadi_to_sympy changed the value: CasADi %s = %.15g at %s (the singular branch is not selected), "
+                                    "SymPy %s = nan" % (str(expr[i, j])[:160], g, {n: case["point"][n] for n in names}, str(e)[:160]),
+                                    tree=t, point=case["point"])
                 continue
         if abs(vv - g) > 1e-9 * abs(g) + floor:
             if roundoff is not None and roundoff > 0.1 * (1e-9 * abs(g) + floor):
@@ -704,6 +778,41 @@ def check_c2s(case):
                 str(expr[i, j])[:160], g, {n: case["point"][n] for n in names}, str(e)[:160], vv), tree=t, point=case["point"])
         checked += 1
     require(checked > 0)
+
+
+def _is_nan(v):
+    try:
+        return v is sympy.nan or (hasattr(v, "has") and v.has(sympy.nan)) or (isinstance(v, float) and math.isnan(v))
+    except Exception:
+        return False
+
+
+def _tree_value(t, point):
+    tb = {}
+    e = ca.SX(to_casadi(t, tb))
+    nm = sorted(tb)
+    return float(np.array(ca.Function("v", [tb[n] for n in nm], [ca.densify(e)]).call([ca.DM(point[n]) for n in nm])[0], float)[0, 0])
+
+
+def _selected_paths_finite(t, point):
+    k = t[0]
+    if k in ("sym", "const"):
+        return True
+    if k in ("if_else", "if_else_zero"):
+        if not _selected_paths_finite(t[1], point):
+            return False
+        c = _tree_value(t[1], point)
+        if not math.isfinite(c):
+            return False
+        if c != 0:
+            return _selected_paths_finite(t[2], point)
+        return _selected_paths_finite(t[3], point) if k == "if_else" else True
+    if not all(_selected_paths_finite(c, point) for c in t[1:] if isinstance(c, list)):
+        return False
+    if k == "atan2" and _tree_value(t[1], point) == 0 and _tree_value(t[2], point) == 0:
+        return False  # atan2(0, 0): outside the mathematical domain (C returns 0, SymPy nan)
+    v = _tree_value(t, point)
+    return math.isfinite(v) and abs(v) < 1e12
 
 
 C2S_MUST = {"sym", "const", "add", "sub", "mul", "div", "neg", "sq", "twice", "inv", "sqrt", "sin", "cos", "tan", "asin", "acos", "atan",
@@ -872,13 +981,16 @@ def build(tier):
              s2c_nontrivial, s2c_classify, quick=700, thorough=20000,
              build=lambda: sym(), shrink=True),
         Cell("s2c/matrix", s2c_case(matrix=True), lambda c: check_s2c(c, True), s2c_nontrivial, s2c_classify, quick=150, thorough=4000),
-        Cell("s2c/raises_or_equal", s2c_case(unsupported=True), lambda c: check_s2c(c, False),
-             lambda c: s2c_nontrivial(c) and bool(ops_of(c["tree"]) & {"exp", "abs", "max", "piecewise", "mod", "pi", "log"}),
-             s2c_classify, quick=400, thorough=10000),
+        Cell("s2c/raises_or_equal", dict([("mixed", s2c_case(unsupported=True))]
+                                         + [(o, s2c_case(unsupported_op=o)) for o in SFUN1 + SFUN2 + ["piecewise", "pi"]]),
+             lambda c: check_s2c(c, False),
+             lambda c: bool(ops_of(c["tree"]) & {"exp", "abs", "max", "piecewise", "mod", "pi", "log", "sfun"}),
+             s2c_classify, quick=800, thorough=12000),
         Cell("s2c/symtab", symtab_case(), check_symtab, lambda c: any(cc["cse"] for cc in c["calls"]),
              lambda c: ["cse-calls:%d" % sum(1 for cc in c["calls"] if cc["cse"])], quick=250, thorough=6000),
         Cell("c2s/value", dict([("mixed", c2s_case("num"))] + [(o, c2s_case("num", op=o)) for o in C2S_OPS]
-                                + [("sel_sum/%d" % i, c2s_case("num", op="sel_sum")) for i in (2, 3, 4)]), check_c2s, c2s_nontrivial,
+                                + [("sel_sum/%d" % i, c2s_case("num", op="sel_sum")) for i in (2, 3, 4)]
+                                + [("guard/%d" % i, c2s_case("num", op="guard")) for i in (2, 3)]), check_c2s, c2s_nontrivial,
              c2s_classify, quick=1100, thorough=30000),
         Cell("c2s/boolean", c2s_case("bool"), check_c2s, c2s_nontrivial, c2s_classify, quick=300, thorough=8000),
         Cell("c2s/matrix", c2s_case("mat"), check_c2s, c2s_nontrivial, c2s_classify, quick=150, thorough=4000),
